@@ -18,7 +18,10 @@ use serde::de::DeserializeOwned;
 use serde::{Deserialize, Serialize};
 use serde_json::{json, Value};
 
-pub const VERIF: &str = "/verif";
+/// Root directory for evidence, replays and known findings (`VERIF_DIR`, default `/verif`).
+pub fn verif_dir() -> PathBuf {
+    PathBuf::from(std::env::var("VERIF_DIR").unwrap_or_else(|_| "/verif".to_string()))
+}
 
 // ---------------------------------------------------------------------------
 // Allocation guard (C13/C14): a counting global allocator.
@@ -192,7 +195,7 @@ pub struct Finding {
 }
 
 pub fn load_findings() -> Vec<Finding> {
-    let p = Path::new(VERIF).join("known_findings.json");
+    let p = verif_dir().join("known_findings.json");
     match std::fs::read_to_string(&p) {
         Ok(s) => {
             let v: Value = serde_json::from_str(&s).expect("known_findings.json parses");
@@ -396,7 +399,7 @@ impl Ctx {
         let path = if let Some(p) = self.regress_path.borrow().clone() {
             PathBuf::from(p)
         } else {
-            let dir = Path::new(VERIF).join("replays/new");
+            let dir = verif_dir().join("replays/new");
             let _ = std::fs::create_dir_all(&dir);
             let path = dir.join(format!("{}-{}-{:016x}.json", self.id, sub, h));
             let doc = json!({
@@ -644,7 +647,7 @@ pub fn child_main(prop: &Prop, args: &Args) -> i32 {
     }
     // Regression tier: committed replay files are re-executed first (shard 0).
     if args.replay.is_none() && shard == 0 {
-        let dir = Path::new(VERIF).join("replays/regress").join(prop.id);
+        let dir = verif_dir().join("replays/regress").join(prop.id);
         let mut files: Vec<PathBuf> = std::fs::read_dir(&dir)
             .map(|d| d.filter_map(|e| e.ok().map(|e| e.path())).filter(|p| p.extension().map(|x| x == "json").unwrap_or(false)).collect())
             .unwrap_or_default();
@@ -677,7 +680,7 @@ pub fn parent_main(prop: &Prop, args: &Args) -> i32 {
     let seed = seed_from_env();
     let n = if args.tier == Tier::Quick { prop.shards.0 } else { prop.shards.1 };
     let budget = if args.tier == Tier::Quick { prop.budget_s.0 } else { prop.budget_s.1 };
-    let dir = PathBuf::from(format!("{VERIF}/target/shards/{}-{}", prop.id, std::process::id()));
+    let dir = verif_dir().join(format!("target/shards/{}-{}", prop.id, std::process::id()));
     let _ = std::fs::remove_dir_all(&dir);
     std::fs::create_dir_all(&dir).expect("shard dir");
     let exe = std::env::current_exe().expect("current exe");
@@ -736,7 +739,7 @@ pub fn parent_main(prop: &Prop, args: &Args) -> i32 {
                 let size = u64::from_le_bytes(bytes[..8].try_into().unwrap());
                 let case = &bytes[8..];
                 let mut p = Partial::default();
-                let rdir = Path::new(VERIF).join("replays/new");
+                let rdir = verif_dir().join("replays/new");
                 let _ = std::fs::create_dir_all(&rdir);
                 let path = rdir.join(format!("{}-alloc-{:016x}.json", prop.id, hash_of(case)));
                 let case_v: Value =
@@ -844,7 +847,7 @@ fn finish(prop: &Prop, tier: Tier, seed: u64, parts: Vec<Partial>, wall: f64, wr
             "violations": viols.len(),
             "violation_details": viols.iter().map(|v| json!({"sub": v.sub, "signature": v.sig, "message": v.msg, "replay": v.replay})).collect::<Vec<_>>(),
         });
-        let dir = Path::new(VERIF).join("evidence");
+        let dir = verif_dir().join("evidence");
         let _ = std::fs::create_dir_all(&dir);
         let path = dir.join(format!("{}.json", prop.id));
         let tmp = dir.join(format!(".{}.json.tmp", prop.id));
